@@ -66,6 +66,39 @@ def accept_cases():
     return out
 
 
+def extra_cases():
+    """Field types that reach the macro in an unusual form: a bare trait object (the struct itself is unsized), and field types
+    / array lengths handed in through macro_rules! fragments (invisible groups)."""
+    out = []
+    D = "::core::fmt::Debug"
+    for entry in ("attr", "derive"):
+        head = "#[::derive_ex::derive_ex(Deref, DerefMut)]" if entry == "attr" else "#[derive(::derive_ex::Ex)] #[derive_ex(Deref, DerefMut)]"
+        obs = ('let p1 = (&*x) as *const _ as *const u8; let p2 = (&x.0) as *const _ as *const u8;\n'
+               '::dxrt::ev!("deref", "same_addr" => ::core::ptr::eq(p1, p2), "target_is_field_type" => tid);')
+        # 1. bare trait object, with and without further bounds, written in place
+        for k, t in enumerate((f"dyn {D}", f"dyn {D} + Send", f"(dyn {D})")):
+            code = (f"#[repr(transparent)] {head}\npub struct Ty(pub {t});\n"
+                    f"pub fn run() {{ let v = 5u8; let r: &({t.strip('()')}) = &v; let x: &Ty = unsafe {{ &*(r as *const ({t.strip('()')}) as *const Ty) }};\n"
+                    f"fn tgt(x: &Ty) -> &({t.strip('()')} + 'static) {{ ::core::ops::Deref::deref(x) }} let tid = ::core::ptr::eq(tgt(x) as *const _ as *const u8, r as *const _ as *const u8);\n{obs} }}")
+            out.append((code, {"field": f"bare {t}", "style": "tuple", "entry": entry, "traits": "Deref"}))
+        # 2. `&'a $t` / `Box<$t>` with `$t = dyn Debug + Send`
+        code = (f"macro_rules! mk {{ ($n:ident, $t:ty) => {{ {head} pub struct $n<'a>(pub &'a $t); }} }}\nmk!(Ty, dyn {D} + Send);\n"
+                f"pub fn run() {{ let v = 5u8; let x = Ty(&v); let tid = ::core::any::TypeId::of::<<Ty<'static> as ::core::ops::Deref>::Target>() == ::core::any::TypeId::of::<&'static (dyn {D} + Send)>();\n{obs} }}")
+        out.append((code, {"field": "&'a $t, $t = dyn A + B", "style": "tuple", "entry": entry, "traits": "Deref"}))
+        code = (f"macro_rules! mk {{ ($n:ident, $t:ty) => {{ {head} pub struct $n {{ pub inner: ::std::boxed::Box<$t> }} }} }}\nmk!(Ty, dyn {D} + Send);\n"
+                f"pub fn run() {{ let x = Ty {{ inner: ::std::boxed::Box::new(5u8) }}; let tid = ::core::any::TypeId::of::<<Ty as ::core::ops::Deref>::Target>() == ::core::any::TypeId::of::<::std::boxed::Box<dyn {D} + Send>>();\n"
+                + obs.replace("x.0", "x.inner") + " }")
+        out.append((code, {"field": "Box<$t>, $t = dyn A + B", "style": "named", "entry": entry, "traits": "Deref"}))
+        # 3. an array length built from an `$e:expr` fragment
+        code = (f"macro_rules! mk {{ ($n:ident, $e:expr) => {{ {head} pub struct $n(pub [u8; 2 * $e]); pub const WANT: usize = 2 * ($e); }} }}\nmk!(Ty, 1 + 2);\n"
+                "pub fn run() { let mut x = Ty([7u8; WANT]); let tid = ::core::any::TypeId::of::<<Ty as ::core::ops::Deref>::Target>() == ::core::any::TypeId::of::<[u8; 6]>() && ::core::mem::size_of::<Ty>() == 6;\n"
+                f"{obs}\n"
+                "let q1 = (&mut *x) as *mut [u8; 6] as usize; let q2 = (&mut x.0) as *mut [u8; 6] as usize; *::core::ops::DerefMut::deref_mut(&mut x) = [1u8; 6];\n"
+                '::dxrt::ev!("deref_mut", "same_addr" => q1 == q2, "write_landed" => x.0 == [1u8; 6]); }')
+        out.append((code, {"field": "[u8; 2 * $e], $e = 1 + 2", "style": "tuple", "entry": entry, "traits": "Deref, DerefMut"}))
+    return out
+
+
 def refusal_reqs():
     reqs, meta = [], []
     PH = "::core::marker::PhantomData"
@@ -124,7 +157,7 @@ def run(rep, tier, rng):
         r = judge_refusal(o, n, traits, entry)
         if r:
             rep.violation(f"C18|{r}|{style}", f"{r}: {reqs[o['id']]}", {"request": reqs[o["id"]], "n": n, "traits": traits, "entry": entry})
-    acc = accept_cases()
+    acc = accept_cases() + extra_cases()
     cases = [C.Case(f"c{i}", code, m) for i, (code, m) in enumerate(acc)]
     _, notes = C.run_cases(cases, "c18", header=HEADER, batch_size=12)
     for n in notes:
@@ -187,7 +220,7 @@ def run(rep, tier, rng):
     rep.canary = judge_refusal(o2, 1, ["Deref"], meta[o2["id"]][3]) is not None
     rep.exhaustive = True
     rep.rule = (f"complete over the shape table: {len(FIELDS)} single-field shapes (tuple/named, generics with bounds and where-clauses (also `T: ?Sized` given only there), const "
-                "and lifetime parameters, ?::core::marker::Sized, unsized-capable field types) x entry x {Deref, Deref+DerefMut}, compiled with "
+                "and lifetime parameters, ?::core::marker::Sized, unsized-capable field types) x entry x {Deref, Deref+DerefMut}, plus a bare trait-object field and field types / array lengths handed in through macro_rules! fragments, compiled with "
                 "the real proc-macro and observed at run time (address identity, TypeId of Target, write-through); and arities "
                 "0-4 x struct kind x field-type pool (ordinary types; PhantomData / () / [u8; 0] markers next to one real field; "
                 "all fields of one type) x trait lists x entry for the refusal, judged on the in-process expansion.")
